@@ -37,12 +37,32 @@ def canon(body, place, depth=0):
     while depth < 40:
         depth += 1
         ds = body.defs().get(l, [])
+        if proj and isinstance(proj[0], dict) and 'f' in proj[0] and len(ds) > 1:
+            # a record whose other fields are written in place (a builder: `self.validate = true; self.capabilities = ..`): for field f only the
+            # definitions of the whole record and the writes to f itself count
+            def other_field(d_):
+                lp = d_[2]['lhs']['p'] if d_[1] == 'assign' else (d_[2].get('dest') or {}).get('p')
+                return bool(lp) and isinstance(lp[0], dict) and 'f' in lp[0] and lp[0]['f'] != proj[0]['f']
+            ds = [d_ for d_ in ds if not other_field(d_)]
         if l <= body.arg_count or len(ds) != 1 or ds[0][1] != 'assign':
             break
         rv = ds[0][2]['rv']
         if ds[0][2]['lhs']['p']:
             break
         src = None
+        if rv['rk'] == 'aggregate' and rv['agg'].startswith('adt:') and proj and rv.get('fields'):
+            # a field read back out of a record literal (`Self { wgsl_source, .. }` .. `self.wgsl_source`): the value it was built with
+            pj = proj
+            if isinstance(pj[0], dict) and 'downcast' in pj[0] and rv['agg'].endswith('::' + str(pj[0]['downcast'])):
+                pj = pj[1:]
+            if pj and isinstance(pj[0], dict) and 'f' in pj[0] and pj[0]['f'] in rv['fields']:
+                op = rv['ops'][rv['fields'].index(pj[0]['f'])]
+                if op_place(op):
+                    src = op_place(op)
+                    l = src['l']
+                    proj = list(src['p']) + list(pj[1:])
+                    continue
+            break
         if rv['rk'] == 'aggregate' and rv['agg'].startswith('closure:') and proj and isinstance(proj[0], dict) and 'i' in proj[0] and proj[0].get('adt') == 'closure' \
                 and proj[0]['i'] < len(rv.get('ops', [])) and op_place(rv['ops'][proj[0]['i']]):
             # a captured variable read through the closure's environment (a closure body inlined into its creator): the captured place itself
